@@ -35,17 +35,22 @@ def run(ctx, col, tier):
     col.rule("R-ASSEMBLE", "re-assembly numbering: new ids are consecutive positions in the output "
              "list, each node's parent is its predecessor, the first node of a branch hangs on the "
              "already emitted start node, children continue from the branch's last node", floor=5)
+    col.rule("R-ARCLEN", "every result of a branch resampler depends on the arc length of the "
+             "polyline (def-use closure from the cumulative segment lengths): no return path -- in "
+             "particular no shortcut -- is decided by, or built from, anything but positions "
+             "along the path", floor=2)
     col.rule("R-PURE", "inputs untouched, results fresh", floor=3)
     col.not_decided += ["equal arc-length spacing / 'length never grows' / linearity of radii as numeric statements",
                         "scipy.signal.convolve behaviour"]
 
-    shapes(ctx, col)
-    argdisc(ctx, col)
-    trim(ctx, col)
-    writeset(ctx, col)
-    interp_family(ctx, col)
-    spacing(ctx, col)
-    assemble(ctx, col)
+    col.guard(shapes, ctx, col)
+    col.guard(argdisc, ctx, col)
+    col.guard(trim, ctx, col)
+    col.guard(writeset, ctx, col)
+    col.guard(interp_family, ctx, col)
+    col.guard(spacing, ctx, col)
+    col.guard(arclen, ctx, col)
+    col.guard(assemble, ctx, col)
     for cq, q in (("swcgeom.transforms.tree.IsometricResampler", "swcgeom.transforms.tree.Resampler.__call__"),
                   ("swcgeom.transforms.tree.TreeSmoother", "swcgeom.transforms.tree.TreeSmoother.__call__"),
                   (f"{BR}.BranchConvSmoother", f"{BR}.BranchConvSmoother.__call__")):
@@ -264,3 +269,57 @@ def assemble(ctx, col):
         and norm_src(rets[0].value).startswith("Tree(len(nodes)")
     col.check(ok, "R-ASSEMBLE", d.qualname, d.loc(rets[0]) if rets else d.loc(), "the tree is built from the emitted nodes in order, all seven columns",
               "", "result is not Tree(len(nodes), {k: [n.k for n in nodes]})", stmt="build")
+
+
+def arclen(ctx, col):
+    """R-ARCLEN: returns of the branch resamplers depend on the cumulative segment lengths."""
+    repo = ctx.repo
+    for q in ("swcgeom.transforms.branch.BranchLinearResampler.resample",
+              "swcgeom.transforms.branch.BranchIsometricResampler.resample"):
+        d = repo.get_def(q)
+        deps: dict = {}
+        for n in own_nodes(d):
+            tgts, val = [], None
+            if isinstance(n, ast.Assign):
+                tgts, val = n.targets, n.value
+            elif isinstance(n, ast.AugAssign):
+                tgts, val = [n.target], n.value
+            elif isinstance(n, ast.AnnAssign) and n.value is not None:
+                tgts, val = [n.target], n.value
+            for t in tgts:
+                base = t
+                while isinstance(base, (ast.Subscript, ast.Attribute)):
+                    base = base.value
+                if isinstance(base, ast.Name) and val is not None:
+                    deps.setdefault(base.id, []).append(val)
+        seeds = {k for k, vs in deps.items() if any(isinstance(c, ast.Call) and (dotted(c.func) or "").endswith("cumsum")
+                                                     for v in vs for c in ast.walk(v))}
+        if not seeds:
+            col.unresolved("R-ARCLEN", q, d.loc(), "arc-length parametrisation", "no cumulative sum of segment lengths found", stmt="seed")
+            continue
+        arc = set(seeds)
+        changed = True
+        while changed:
+            changed = False
+            for k, vs in deps.items():
+                if k not in arc and any(isinstance(x, ast.Name) and x.id in arc for v in vs for x in ast.walk(v)):
+                    arc.add(k)
+                    changed = True
+
+        def depends(e):
+            return any(isinstance(x, ast.Name) and x.id in arc for x in ast.walk(e))
+        rets = [r for r in own_nodes(d) if isinstance(r, ast.Return) and r.value is not None]
+        for r in rets:
+            guards = []
+            cur = repo.parent(r)
+            child = r
+            while cur is not None and cur is not d.node:
+                if isinstance(cur, (ast.If, ast.While)):
+                    guards.append(cur.test)
+                child, cur = cur, repo.parent(cur)
+            ok = depends(r.value) or any(depends(g) for g in guards)
+            col.check(ok, "R-ARCLEN", q, d.loc(r), "result depends on the arc length of the branch",
+                      f"arc-length variables: {sorted(arc)}",
+                      f"`{norm_src(r)[:70]}`" + (f" under `{norm_src(guards[0])[:70]}`" if guards else "") +
+                      " is neither computed from nor guarded by the cumulative path length: the shortcut ignores how long "
+                      "the polyline between the two ends is", stmt="ret:" + norm_src(r.value)[:50])
